@@ -1,6 +1,19 @@
 (** C22 — Temporal values round-trip through text and parsing is total.
     Only pinned statements, each closed by [exact] of a lemma proved in Value/TemporalLaws.v
-    (model: Value/Temporal.v over the [&str] model Value/RStr.v and decimals Value/Dec.v). *)
+    (model: Value/Temporal.v over the [&str] model Value/RStr.v and decimals Value/Dec.v).
+
+    The model describes the code AFTER the C22 repairs (fix commits e051995f time.rs,
+    947265c2 timestamp.rs, 98c849c2 date.rs, 21946acd interval.rs).  History: on the
+    pre-repair code the first version of this file proved the totality theorems only under side
+    conditions and carried machine-checked panicking witnesses —
+      Time      "00:00:00.ééééé"                 ([&padded[..9]] cut a 2-byte character)
+      Timestamp "2024-01-01 00:00:00+1é:2"       ([rest[..2]] after a character-index test)
+      Interval  "1.aééééé SECOND"                ([..6] cut), "1 YEAR TO" ([parts[to_pos+1]]),
+                "200000000 YEAR", "178956970-8 YEAR TO MONTH", "2562047789 HOUR",
+                "9223372036854.775808 SECOND"    (i32 / i64 overflow)
+      Date      year -1 prints "-001-01-01" which [from_str] rejected
+    — all of which are now [Example]s of the repaired behaviour in TemporalLaws.v, and all of which
+    the harness still generates on every run. *)
 From Coq Require Import Strings.String.
 From Coq Require Import List ZArith.
 From VibeSQL Require Import Value.SqlValue Value.Dec Value.DecLaws Value.RStr Value.RStrLaws Value.Temporal Value.TemporalLaws.
@@ -8,57 +21,42 @@ Import ListNotations.
 Open Scope Z_scope.
 
 (** decimal library: the zero-padded print of [n] parses back to [n] in every integer type
-    whose range contains it *)
+    whose range contains it; negative numbers (sign-aware padding) in every signed type *)
 Theorem C22_dec_roundtrip : forall (sg : bool) (lo hi : Z) (w : nat) (n : Z),
   0 <= n < 100000000000000000000 -> lo <= n <= hi -> parse_int sg lo hi (show_int_w w n) = Some n.
 Proof. exact parse_show_int. Qed.
 Print Assumptions C22_dec_roundtrip.
 
-(** ** Round trips *)
+Theorem C22_dec_roundtrip_neg : forall (lo hi : Z) (w : nat) (n : Z),
+  0 < n < 100000000000000000000 -> lo <= - n <= hi -> parse_int true lo hi (show_int_w w (- n)) = Some (- n).
+Proof. exact parse_show_neg. Qed.
+Print Assumptions C22_dec_roundtrip_neg.
 
-(** DATE: every value [Date::new] accepts (any i32 year, month 1..12, day 1..31) outside the
-    listed class [negative_year] (KNOWN_FINDINGS: C22 negative-year) *)
+(** ** Round trips — full strength *)
+
+(** DATE: every value [Date::new] accepts: any i32 year (negative included), month 1..12, day 1..31 *)
 Theorem C22_date_roundtrip : forall y m d : Z,
-  valid_date y m d -> negative_year (VDate y m d) = false ->
-  parse_date (show_date y m d) = ROk (VDate y m d).
+  valid_date y m d -> parse_date (show_date y m d) = ROk (VDate y m d).
 Proof. exact date_roundtrip_thm. Qed.
 Print Assumptions C22_date_roundtrip.
 
-(** the unconditional statement is false of the faithful model *)
-Theorem C22_date_roundtrip_refuted :
-  exists y m d : Z, valid_date y m d /\ date_new y m d = ROk (VDate y m d)
-    /\ negative_year (VDate y m d) = true
-    /\ show_date y m d = lit "-001-01-01"
-    /\ parse_date (show_date y m d) = RErr.
-Proof. exact date_roundtrip_refuted_thm. Qed.
-Print Assumptions C22_date_roundtrip_refuted.
-
-(** TIME: every valid value, all 10^9 nanosecond values (fraction printed with trailing zeros
-    trimmed) — full strength, no side condition *)
+(** TIME: every valid value, all 10^9 nanosecond values (fraction printed with trailing zeros trimmed) *)
 Theorem C22_time_roundtrip : forall h mi s ns : Z,
   valid_time h mi s ns -> parse_time (show_time h mi s ns) = ROk (VTime h mi s ns).
 Proof. exact time_roundtrip_thm. Qed.
 Print Assumptions C22_time_roundtrip.
 
-(** TIMESTAMP: every valid date x valid time outside [negative_year]; covers [trim],
-    [strip_timezone_suffix] (never strips anything from a printed value, even for 8+ digit
-    years where the last '-' is beyond byte 10) and [split_whitespace] *)
+(** TIMESTAMP: every valid date x valid time; covers [trim], [strip_timezone_suffix] (never strips
+    anything from a printed value, also when the last '-' is beyond byte 10) and [split_whitespace] *)
 Theorem C22_timestamp_roundtrip : forall y m d h mi s ns : Z,
-  valid_date y m d -> valid_time h mi s ns -> negative_year (VTimestamp y m d h mi s ns) = false ->
+  valid_date y m d -> valid_time h mi s ns ->
   parse_timestamp (show_timestamp y m d h mi s ns) = ROk (VTimestamp y m d h mi s ns).
 Proof. exact timestamp_roundtrip_thm. Qed.
 Print Assumptions C22_timestamp_roundtrip.
 
-Theorem C22_timestamp_roundtrip_refuted :
-  exists y m d h mi s ns : Z, valid_date y m d /\ valid_time h mi s ns
-    /\ negative_year (VTimestamp y m d h mi s ns) = true
-    /\ parse_timestamp (show_timestamp y m d h mi s ns) = RErr.
-Proof. exact timestamp_roundtrip_refuted_thm. Qed.
-Print Assumptions C22_timestamp_roundtrip_refuted.
-
 (** the same through [SqlValue]'s Display (display.rs), with "equal" in the sense of C21's [eqb] *)
 Theorem C22_value_roundtrip : forall (v : sqlvalue) (t : str),
-  valid_temporal v -> negative_year v = false -> show_temporal v = Some t ->
+  valid_temporal v -> show_temporal v = Some t ->
   parse_as v t = ROk v /\ (forall w, parse_as v t = ROk w -> eqb v w = true).
 Proof. exact value_roundtrip_thm. Qed.
 Print Assumptions C22_value_roundtrip.
@@ -73,80 +71,35 @@ Theorem C22_interval_roundtrip : forall (s : str) (i : interval),
 Proof. exact interval_roundtrip_thm. Qed.
 Print Assumptions C22_interval_roundtrip.
 
-Theorem C22_interval_never_err : forall s : str, interval_new s <> RErr.
-Proof. exact interval_new_never_err_thm. Qed.
-Print Assumptions C22_interval_never_err.
+(** ** Totality — full strength: every string, no side condition *)
 
-(** ** Totality (parsing any string yields a value or an error, never a panic) *)
-
-(** DATE: full strength, every string *)
 Theorem C22_parse_date_total : forall s : str, is_panic (parse_date s) = false.
 Proof. exact parse_date_total_thm. Qed.
 Print Assumptions C22_parse_date_total.
 
-(** TIME: outside the listed class [frac_nonascii] (KNOWN_FINDINGS: C22 non-ascii-in-fraction) *)
-Theorem C22_parse_time_total : forall s : str,
-  frac_nonascii s = false -> is_panic (parse_time s) = false.
+Theorem C22_parse_time_total : forall s : str, is_panic (parse_time s) = false.
 Proof. exact parse_time_total_thm. Qed.
 Print Assumptions C22_parse_time_total.
 
-(** the only panic of [Time::from_str] is the [&padded[..9]] slice, exactly when byte 9 of the
-    padded fraction is inside a character *)
-Theorem C22_parse_time_panic_exact : forall (s : str) (k : panic_kind),
-  parse_time s = RPanic k ->
-  k = PSlice /\ exists f, after_first (Z.eqb 46) s = Some f /\ frac_cut f = true.
-Proof. exact parse_time_panic_inv. Qed.
-Print Assumptions C22_parse_time_panic_exact.
-
-Theorem C22_parse_time_total_refuted :
-  exists s : str, frac_nonascii s = true /\ parse_time s = RPanic PSlice.
-Proof. exact parse_time_total_refuted_thm. Qed.
-Print Assumptions C22_parse_time_total_refuted.
-
-(** TIMESTAMP: outside [frac_nonascii] and [tz_nonascii]
-    (KNOWN_FINDINGS: C22 non-ascii-in-fraction, non-ascii-in-tz-offset) *)
-Theorem C22_parse_timestamp_total : forall s : str,
-  frac_nonascii s = false -> tz_nonascii s = false -> is_panic (parse_timestamp s) = false.
+Theorem C22_parse_timestamp_total : forall s : str, is_panic (parse_timestamp s) = false.
 Proof. exact parse_timestamp_total_thm. Qed.
 Print Assumptions C22_parse_timestamp_total.
 
-Theorem C22_parse_timestamp_total_refuted_frac :
-  exists s : str, frac_nonascii s = true /\ tz_nonascii s = false /\ parse_timestamp s = RPanic PSlice.
-Proof. exact parse_timestamp_total_refuted_frac_thm. Qed.
-Print Assumptions C22_parse_timestamp_total_refuted_frac.
-
-Theorem C22_parse_timestamp_total_refuted_tz :
-  exists s : str, frac_nonascii s = false /\ tz_nonascii s = true /\ parse_timestamp s = RPanic PSlice.
-Proof. exact parse_timestamp_total_refuted_tz_thm. Qed.
-Print Assumptions C22_parse_timestamp_total_refuted_tz.
-
-(** INTERVAL: outside [frac_nonascii], [long_number] and [to_is_last]
-    (KNOWN_FINDINGS: C22 non-ascii-in-fraction, interval-arith-overflow, interval-to-last-word) *)
+(** [Interval::parse_interval] returns a triple for every string, and the triple fits the field
+    types (saturating i32 / i64 arithmetic) *)
 Theorem C22_parse_interval_total : forall s : str,
-  frac_nonascii s = false -> long_number s = false -> to_is_last s = false ->
-  is_panic (parse_interval s) = false /\ is_panic (interval_new s) = false.
-Proof. exact parse_interval_total_thm. Qed.
+  exists t, parse_interval s = ROk t /\ triple_in_range t.
+Proof. exact parse_interval_ok_thm. Qed.
 Print Assumptions C22_parse_interval_total.
 
-Theorem C22_parse_interval_total_refuted_frac :
-  exists s : str, frac_nonascii s = true /\ long_number s = false /\ to_is_last s = false
-    /\ parse_interval s = RPanic PSlice.
-Proof. exact parse_interval_total_refuted_frac_thm. Qed.
-Print Assumptions C22_parse_interval_total_refuted_frac.
+(** [Interval::new] / [Interval::from_str]: always [Ok] with the text stored unchanged *)
+Theorem C22_interval_new_total : forall s : str,
+  exists i, interval_new s = ROk i /\ iv_text i = s
+            /\ triple_in_range (iv_months i, iv_days i, iv_micros i).
+Proof. exact interval_new_total_thm. Qed.
+Print Assumptions C22_interval_new_total.
 
-(** four distinct overflow sites: [years * 12], [years * 12 + months], [hours * 3600 * 1_000_000],
-    [whole * 1_000_000 + frac] *)
-Theorem C22_parse_interval_total_refuted_overflow :
-  exists s1 s2 s3 s4 : str,
-    (frac_nonascii s1 = false /\ long_number s1 = true /\ to_is_last s1 = false /\ parse_interval s1 = RPanic POverflow)
-    /\ (long_number s2 = true /\ parse_interval s2 = RPanic POverflow)
-    /\ (long_number s3 = true /\ parse_interval s3 = RPanic POverflow)
-    /\ (long_number s4 = true /\ parse_interval s4 = RPanic POverflow).
-Proof. exact parse_interval_total_refuted_overflow_thm. Qed.
-Print Assumptions C22_parse_interval_total_refuted_overflow.
-
-Theorem C22_parse_interval_total_refuted_to :
-  exists s : str, frac_nonascii s = false /\ long_number s = false /\ to_is_last s = true
-    /\ parse_interval s = RPanic PIndex.
-Proof. exact parse_interval_total_refuted_to_thm. Qed.
-Print Assumptions C22_parse_interval_total_refuted_to.
+Theorem C22_interval_no_panic_no_err : forall s : str,
+  is_panic (parse_interval s) = false /\ is_panic (interval_new s) = false /\ interval_new s <> RErr.
+Proof. exact parse_interval_total_thm. Qed.
+Print Assumptions C22_interval_no_panic_no_err.
